@@ -11,6 +11,7 @@ import (
 	"crypto/rsa"
 	"crypto/sha256"
 	"fmt"
+	"io"
 	"math/big"
 
 	hpke "github.com/cisco/go-hpke"
@@ -29,7 +30,7 @@ func init() {
 		Rule: "RateLimitedIssuer.Evaluate(bytes) on requests built two ways: by pat-go's client, and entirely by the harness (own encoder, own HPKE sealing with the AAD of the draft, own key-blinded signer over crypto/ecdsa). Honest requests for a registered origin must be served and the response must finalize to a token valid under rsa.VerifyPSS. " +
 			"Must be rejected with an error and a nil response: every single-bit flip of an accepted encoding (exhaustive), every truncation, a trailing byte, a missing signature, unregistered origins (near misses of the registered names), requests sealed to another issuer's name key (key id kept and replaced), requests re-signed by an unrelated key, request key replaced and correctly re-signed (only the AAD binding catches it), AAD variants that drop or alter one component, inner requests truncated before encryption (with the empty origin registered). " +
 			"Differential part: on an issuer whose name key is derived from a seed known to the harness (verif-tagged hook) the harness decides every generated input itself (own parser, own HPKE open through go-hpke, own unpadding, origin lookup, crypto/ecdsa) - multi-bit and byte mutations, field splices between honest requests with and without re-signing, replaced-and-re-signed name key ids, (r, N-s), padded-origin and inner-request variants, foreign name keys, altered AADs - and Evaluate must agree. distinct_nontrivial = distinct (request, tampering class, position) and (class, reference reason) keys",
-		Floors:      []string{"served_pat_go_client", "served_harness_built", "response_finalized_valid", "bitflips_rejected", "truncations_rejected", "unregistered_origin_rejected", "foreign_name_key_rejected", "resigned_rejected", "aad_binding_rejected", "inner_truncated_rejected", "failed_registration_origin_rejected", "served_after_many_late_refusals", "long_origin_requests_served", "client_requests_accepted_by_reference", "differential_agree_accept", "differential_agree_reject", "differential_reject_signature", "differential_reject_hpke-open", "differential_reject_unregistered-origin", "differential_reject_outer-parse"},
+		Floors:      []string{"all_one_and_two_byte_tails_rejected", "honest_signatures_ending_in_text_framing_served", "served_pat_go_client", "served_harness_built", "response_finalized_valid", "bitflips_rejected", "truncations_rejected", "unregistered_origin_rejected", "foreign_name_key_rejected", "resigned_rejected", "aad_binding_rejected", "inner_truncated_rejected", "failed_registration_origin_rejected", "served_after_many_late_refusals", "long_origin_requests_served", "client_requests_accepted_by_reference", "differential_agree_accept", "differential_agree_reject", "differential_reject_signature", "differential_reject_hpke-open", "differential_reject_unregistered-origin", "differential_reject_outer-parse"},
 		Assumptions: []string{"enumerated part: acceptance is fixed by construction of each case; differential part: the issuer's name key comes from a known seed through the verif hook", "an inner request with trailing bytes after the padded origin is only counted (no rule in the statement)"},
 		Run:         runC07,
 	})
@@ -385,8 +386,39 @@ func runC07(c *core.Ctx) {
 			w.mustReject(append(clone(base.enc), make([]byte, 131072)...), "trailing-131072-bytes", "")
 			w.mustReject(append(clone(base.enc), make([]byte, 65535)...), "trailing-65535-bytes", "")
 			w.mustReject(append(clone(base.enc), base.enc...), "doubled", "")
+			if hi < 2 {
+				// every one-byte tail and every two-byte tail (line ends, blanks, NULs and the other 65k)
+				for t := 0; t < 256; t++ {
+					w.mustReject(append(clone(base.enc), byte(t)), fmt.Sprintf("trailing-byte-%02x", t), "")
+				}
+				for t := 0; t < 65536; t++ {
+					w.mustReject(append(clone(base.enc), byte(t>>8), byte(t)), "trailing-two-bytes", "")
+				}
+				c.Class("all_one_and_two_byte_tails_rejected")
+			}
 			w.mustReject(base.enc[:len(base.enc)-96], "signature-removed", "truncations_rejected")
 			c.Distinctf("truncations:%d", hi)
+		}
+		// the same honest request signed so that its LAST bytes look like text framing (a line end, a blank, NULs):
+		// they are signature bytes, and the request is served
+		if hi < 3 && c.Next() {
+			msg := base.enc[:len(base.enc)-96]
+			for ti, tail := range [][]byte{[]byte("\r\n"), []byte("\n"), {0}, []byte(" "), {0, 0}, []byte("=")} {
+				if len(tail) == 2 && !c.Thorough() && ti/4 != hi%2 {
+					continue // two-byte tails cost 2^15 nonces each: one per honest request in the quick tier
+				}
+				sig := ecdsaSignWithTail(elliptic.P384(), base.signer.signD, sha512Sum384(msg), tail, new(big.Int).SetBytes(c.CaseRng().Bytes(40)), 1<<21)
+				if sig == nil {
+					c.Class("info_no_nonce_found_for_signature_tail")
+					continue
+				}
+				b2 := *base
+				b2.enc = append(clone(msg), sig...)
+				if w.mustServe(&b2, fmt.Sprintf("honest-signature-ending-%x", tail)) {
+					c.Class("honest_signatures_ending_in_text_framing_served")
+					c.Distinctf("sigtail:%d:%x", hi, tail)
+				}
+			}
 		}
 		// structural forgeries
 		if c.Next() {
@@ -771,6 +803,32 @@ func (f *failingReader) Read(p []byte) (int, error) {
 		return k, fmt.Errorf("entropy source unavailable")
 	}
 	return k, nil
+}
+
+// faultAtRead serves every Read from the real source except the k-th (1-based), which fails once: a transient fault.
+type faultAtRead struct {
+	real  io.Reader
+	k, n  int
+	fired bool
+}
+
+func (f *faultAtRead) Read(p []byte) (int, error) {
+	f.n++
+	if f.n == f.k {
+		f.fired = true
+		return 0, fmt.Errorf("entropy source unavailable (transient)")
+	}
+	return f.real.Read(p)
+}
+
+// withEntropyFaultAtRead runs f while the k-th read of crypto/rand.Reader fails; reports whether the fault was reached.
+func withEntropyFaultAtRead(k int, f func()) bool {
+	saved := crand.Reader
+	fr := &faultAtRead{real: saved, k: k}
+	crand.Reader = fr
+	defer func() { crand.Reader = saved }()
+	f()
+	return fr.fired
 }
 
 // withFailingEntropy runs f while crypto/rand.Reader yields okBytes bytes and then fails (fault injection at the
